@@ -3,13 +3,18 @@
    [spelling] for every message spelling in the stream (the parser reads the complete
    spelling as M and none of its proper prefixes as anything; it starts with a known
    tag opener, ends in a single '>' and fits the threshold) and (ii) parse_needs_opener.
-   Both are decidable / checkable and are evaluated on every generated spelling and
-   every recorded parser answer; proving them of the concrete XML model is the
-   remaining step (PARTIAL at that point only). *)
+   (ii) is PROVED of the concrete parser - the XML model, the message model and the live
+   registry (the_concrete_parser_needs_an_opener, Xml/Opener.v + Buffer/Concrete.v: every
+   start tag the lexer reports occurs in the text, the root of the tree is the first start
+   tag, a tree read as a message has a registered tag, the buffer looks for exactly those) -
+   so for the concrete parser the framing theorem needs only (i).  (i) is decidable
+   (spelling_is_decidable) and evaluated on every generated spelling; proving it for every
+   printed message (XML round trip and prefix-freeness) is the remaining step: PARTIAL at
+   that point only. *)
 From Coq Require Import List NArith Bool Arith.
 Import ListNotations.
-From Indi Require Import Base.Sx Buffer.Model Buffer.Props Buffer.Junk Buffer.Framing
-  Msg.Registry Msg.RegOk Generated.RegistryData.
+From Indi Require Import Base.Sx Buffer.Model Buffer.Props Buffer.Junk Buffer.Framing Buffer.Run Buffer.Concrete
+  Msg.Registry Msg.RegOk Msg.Equality Generated.RegistryData.
 
 (* A stream l = junk, message, junk, message, ... (junk free of known-tag openers:
    whitespace, XML declarations, anything else) cut into ANY pieces: every process()
@@ -49,3 +54,20 @@ Print Assumptions spelling_is_decidable.
 Theorem live_buffer_tags : reg_ok_buffer live_registry = true.
 Proof. vm_compute. reflexivity. Qed.
 Print Assumptions live_buffer_tags.
+
+(* the parser premise, for the concrete parser and the live tags *)
+Theorem the_concrete_parser_needs_an_opener :
+  parse_needs_opener msg concrete_parse (rbuffer_tags live_registry).
+Proof. exact concrete_parse_needs_opener. Qed.
+Print Assumptions the_concrete_parser_needs_an_opener.
+
+(* ... so that, for the concrete parser, framing needs the spelling premise only *)
+Theorem concrete_framing_lossless_ordered_prompt : forall thr pieces l data u,
+  wf msg concrete_parse (rbuffer_tags live_registry) thr l -> data ++ concat pieces ++ u = flatten msg l ->
+  nothing_overdue msg l data ->
+  let '(outs, dfin) := feed msg concrete_parse (rbuffer_tags live_registry) thr data pieces in
+  Forall (fun om => fst om = Done) outs /\
+  exists l', wf msg concrete_parse (rbuffer_tags live_registry) thr l' /\ dfin ++ u = flatten msg l' /\
+             msgs msg l = deliveries msg outs ++ msgs msg l' /\ nothing_overdue msg l' dfin.
+Proof. exact (fun thr => framing msg concrete_parse (rbuffer_tags live_registry) thr live_tags_clean concrete_parse_needs_opener). Qed.
+Print Assumptions concrete_framing_lossless_ordered_prompt.
